@@ -380,6 +380,96 @@ def rule_r10(chk, F):
     r.instance("scan:float-equality-sites", sample={"functions": nfn, "sites": sites})
 
 
+def rule_r11(chk, F):
+    """emit_inst dispatches on the instruction's opcode and hands the instruction to a handler.  Inside the handler
+    the opcode of that same instruction is already known; a test of it against opcodes the handler is never called
+    for is a confused variable (the author meant an *input* instruction), and a match on it whose default arm panics
+    without covering the dispatched opcodes aborts the compiler for every such instruction."""
+    import doraq
+    import re
+    r = chk.rule("C02.R11", "boots back ends: inside a handler that emit_inst dispatches for opcode set S, every test "
+                            "of the dispatched instruction's own opcode mentions only opcodes in S")
+    D = F.dora()
+    f0 = "pkgs/boots/codegen.dora"
+    t = D.get(f0)
+    if not r.anchor(f0, t):
+        return
+    disp = [fn for fn in doraq.functions(t, f0) if fn.name == "emit_inst" and fn.body is not None]
+    if not r.anchor("codegen.dora emit_inst", disp):
+        return
+    ms = [n for n in doraq.walk(disp[0].body) if doraq.is_node(n) and n[0] == "MATCH_EXPR"]
+    if not r.anchor("emit_inst: match over the opcode", ms):
+        return
+    handlers = {}
+    for (ptxt, pat, body) in doraq.direct_match_arms(ms[0]):
+        ops = set(re.findall(r"Op::([A-Za-z0-9_]+)", ptxt))
+        if not ops:
+            continue
+        for c in doraq.calls(body):
+            if c.recv is not None and c.name and c.name.startswith("emit_") and c.args and doraq.text(c.args[0]) == "inst":
+                handlers.setdefault(c.name, set()).update(ops)
+    r.floor("handlers dispatched by emit_inst", len(handlers), 60)
+    ntests = 0
+    PANICS = ("unreachable", "fatal_error", "unimplemented")
+    for f in ("pkgs/boots/codegen/x64.dora", "pkgs/boots/codegen/arm64.dora"):
+        tt = D.get(f)
+        if not r.anchor(f, tt):
+            continue
+        for fn in doraq.functions(tt, f):
+            if fn.name not in handlers or fn.body is None:
+                continue
+            S = handlers[fn.name]
+            ps = [pn for pn, _ty in fn.params() if pn != "self"]
+            if not ps:
+                continue
+            me = ps[0] + ".op()"
+            key0 = "%s::%s" % (f, fn.qual)
+            for n in doraq.walk(fn.body):
+                if not doraq.is_node(n):
+                    continue
+                if n[0] == "MATCH_EXPR":
+                    ns = doraq.nodes(n)
+                    if not ns or doraq.text(ns[0]) != me:
+                        continue
+                    ntests += 1
+                    arms = doraq.direct_match_arms(n)
+                    mentioned, default_panics, has_default = set(), False, False
+                    for (ptxt, pat, body) in arms:
+                        ops = set(re.findall(r"Op::([A-Za-z0-9_]+)", ptxt))
+                        if not ops and ptxt.strip() == "_":
+                            has_default = True
+                            bt = doraq.text(body)
+                            default_panics = any(bt.strip().startswith(w + "(") or ("{ " + w + "(") in bt or bt.strip() == w + "()"
+                                                 or (w + "()") in bt for w in PANICS)
+                        mentioned |= ops
+                    r.instance("%s:match(%s)@%d" % (key0, me, n[1]), sample={"dispatched": sorted(S), "arms": sorted(mentioned)})
+                    foreign = mentioned - S
+                    if foreign:
+                        r.violation("%s:match(%s):tests-foreign-opcodes" % (key0, me),
+                                    "%s is only called for %s, but matches its own opcode against %s: those arms can "
+                                    "never be taken (the test was meant for an input instruction)%s" % (
+                                        fn.name, "/".join(sorted(S)), "/".join(sorted(foreign)),
+                                        "; the default arm panics, so the compiler aborts ('unreachable code "
+                                        "executed') for every such instruction" if default_panics else ""),
+                                    "%s:%d" % (f, n[1]))
+                elif n[0] == "BIN_EXPR":
+                    tx = doraq.text(n)
+                    ns = doraq.nodes(n)
+                    if len(ns) != 2:
+                        continue
+                    a, b = doraq.text(ns[0]), doraq.text(ns[1])
+                    if a == me and b.startswith("Op::") or b == me and a.startswith("Op::"):
+                        ntests += 1
+                        op = (b if a == me else a)[4:]
+                        r.instance("%s:%s@%d" % (key0, tx[:40], n[1]), sample={"dispatched": sorted(S)})
+                        if op not in S:
+                            r.violation("%s:compare(%s,Op::%s):tests-foreign-opcode" % (key0, me, op),
+                                        "%s is only called for %s, so `%s` is constant: the comparison was meant for "
+                                        "an input instruction, and the code it guards is dead or always runs" % (
+                                            fn.name, "/".join(sorted(S)), tx[:60]), "%s:%d" % (f, n[1]))
+    r.floor("own-opcode tests inside handlers", ntests, 8)
+
+
 def run(chk, F):
     rule_r1(chk, F)
     rule_r2(chk, F)
@@ -390,6 +480,7 @@ def run(chk, F):
     c02_tables.run_tables(chk, F)
     rule_r9(chk, F)
     rule_r10(chk, F)
+    rule_r11(chk, F)
     # C02.R8: arithmetic on program-supplied integers in the natives
     from rules import c02_natarith
     cg_rt = CallGraph(F, libs=["dora_runtime"], bins=[])
